@@ -3,6 +3,7 @@
 //!
 //! request: `ed <mode e|v> <cols> <flags> <history> <left> <right> <helper> <binds> key…`
 //!   flags  : `-` or letters: t type-ahead, p external printer attached, l list completion,
+//!            w a SIGWINCH (window size unchanged) is delivered to the reading thread before the first key,
 //!            B bracketed paste off, s enable_signals, r start from a raw-mode terminal
 //!   helper : `-` or `|`-joined parts: `C=<texts>` word completer, `V=<cp>@<v>;…` scripted validator
 //!            (first listed char contained in the text decides; v ∈ i n m v e), `Vb` bracket validator,
@@ -202,7 +203,7 @@ pub fn parse(f: &[&str]) -> Option<Req> {
         return None;
     }
     let flags = if f[2] == "-" { String::new() } else { f[2].to_string() };
-    if !flags.chars().all(|c| "tplBsr".contains(c)) {
+    if !flags.chars().all(|c| "tplBsrw".contains(c)) {
         return None;
     }
     let keys: Option<Vec<Vec<u8>>> = f[8..].iter().map(|k| unhex(k)).collect();
@@ -436,6 +437,16 @@ fn run_with<I: History + 'static>(
     let mut wedged = false;
     // wait for raw mode + first prompt
     let mut w = q.wait(&pty, &mut out, false, &finished, step_timeout);
+    if w == Wait::Blocked && req.flags.contains('w') {
+        // a window-size signal that changes nothing, while the read waits for its first key: the read
+        // must simply go on waiting.  (Only here: a signal that arrives while a multi-key command is
+        // half read makes the code start that command afresh, which the model does not describe.)
+        q.arm();
+        unsafe {
+            libc::syscall(libc::SYS_tgkill, libc::getpid(), tid, libc::SIGWINCH);
+        }
+        w = q.wait(&pty, &mut out, true, &finished, step_timeout);
+    }
     if w == Wait::Blocked {
         if req.flags.contains('t') {
             q.arm();
@@ -1423,7 +1434,7 @@ fn random_helper(rng: &mut Rng, flags: &mut String, profile: Profile, cols: u16)
         let mut cands: Vec<String> =
             (0..k)
                 .map(|_| {
-                    rng.pick(&["ab", "abc", "abé", "b", "", "a b", "aZ", "漢a", "漢ab", "éc", "éco", "écoute", "abé"]).to_string()
+                    rng.pick(&["ab", "abc", "abé", "b", "", "a b", "aZ", "漢a", "漢ab", "éc", "éco", "écoute", "abé", "ab本", "ab朝"]).to_string()
                 })
                 .collect();
         if cols <= 20 && rng.chance(1, 4) {
@@ -1491,6 +1502,23 @@ fn malformed_token(rng: &mut Rng) -> String {
 
 pub fn gen_profile(ctx: &GenCtx, tag: &str, profile: Profile, sink: &mut dyn FnMut(String)) {
     let mut rng = Rng::new(ctx.seed ^ 0xED ^ ((profile as u64) << 8));
+    if profile == Profile::Kill {
+        // more separate kills than the ring holds (60): k words typed and killed one by one (each kill
+        // separated from the next by typing), then a yank and a few yank-pops around the wrap point
+        for (k, pops) in [(59usize, 2usize), (60, 1), (61, 1), (61, 3), (62, 2), (63, 3)] {
+            let mut req = format!("{} e 80 - ~ - - - -", tag);
+            for i in 0..k {
+                let c = b'a' + (i % 26) as u8;
+                req.push_str(&format!(" {:02x} {:02x} 17", c, b'0' + (i / 26) as u8));
+            }
+            req.push_str(" 19");
+            for _ in 0..pops {
+                req.push_str(" 1b79");
+            }
+            req.push_str(" 0d");
+            sink(req);
+        }
+    }
     let n = match (profile, ctx.thorough) {
         (_, true) => 60_000,
         (Profile::General, false) => 3_000,
@@ -1507,6 +1535,9 @@ pub fn gen_profile(ctx: &GenCtx, tag: &str, profile: Profile, sink: &mut dyn FnM
         let mut flags = String::new();
         if rng.chance(1, 8) {
             flags.push('t');
+        }
+        if (profile == Profile::Malformed || profile == Profile::General) && rng.chance(1, 8) {
+            flags.push('w');
         }
         let pprob = if profile == Profile::Malformed || profile == Profile::Doc { 4 } else { 10 };
         if rng.chance(1, pprob) {
